@@ -3,7 +3,7 @@
 From Coq Require Import NArith ZArith List Bool Lia String Ascii.
 From SasLexer Require Import Gen.TokenType Gen.ErrorKind Gen.Channel Model.Base Model.Helpers Model.Numeric Model.Core Model.Buffer
      Model.Lexer3 Spec.RefLex Proofs.Generic Proofs.LexGeneric Proofs.Sorted Proofs.LexSorted Proofs.RefLexProofs Proofs.RefLexErrors Proofs.RefLexTiling Proofs.RefLexShape Proofs.RefLexRanges Proofs.RefLexCase Proofs.Tables Proofs.CaseInv
-     Proofs.Lines Proofs.LexLines Proofs.TokLines Proofs.ErrLines Proofs.OcBase Proofs.OcWhole Proofs.OcAll.
+     Proofs.Lines Proofs.LexLines Proofs.TokLines Proofs.ErrLines Proofs.ColLines Proofs.OcBase Proofs.OcWhole Proofs.OcAll.
 Import ListNotations.
 Open Scope N_scope.
 
@@ -291,4 +291,19 @@ Proof.
   destruct (lex_lines_macro_free msep src H) as (H1 & H2 & _).
   pose proof (lex_error_positions (mkCfg false msep) src) as G. cbv zeta in G.
   destruct (split_bom src) as [[bb bc] text]. exact (G H1 H2).
+Qed.
+
+(** C04: [C04_macro_free_token_start_column] *)
+Lemma mf_C04_macro_free_token_start_column : forall (msep : bool) (src : list char),
+  macro_free (body_of src) = true ->
+  let r := lex (mkCfg false msep) src in
+  let '((bb, _), text) := split_bom src in
+  forall d i t, nthN (b_toks (lr_buffer r)) i = Some t ->
+  forall pre rest, text = pre ++ rest -> blen pre + bb = t_byte t ->
+    get_token_start_column d (lr_buffer r) i = AOk (col_of pre 0).
+Proof.
+  intros msep src H. cbv zeta.
+  destruct (lex_lines_macro_free msep src H) as (H1 & H2 & H3 & H4 & H5).
+  pose proof (lex_token_start_column (mkCfg false msep) src) as G. cbv zeta in G.
+  destruct (split_bom src) as [[bb bc] text]. exact (G H1 H2 H3 H4 H5).
 Qed.
